@@ -79,6 +79,7 @@ def run(ctx):
     R.rule("C12-R7", "every operator spelling the printer can emit is known to the tokenizer (registered in getOperators)", floor=45)
     R.rule("C12-R9", "a block comment is scanned from behind its opener to the first `*/`, with no escape character", floor=2)
     R.rule("C12-R10", "a literal is not split off an identifier: the character behind it is tested against every identifier character when the literal is spelled like one", floor=1)
+    R.rule("C12-R11", "literal suffix loop: a branch that has consumed characters goes round again (exponent, f, l, u may follow each other in any order)", floor=2)
     R.rule("C12-R4", "escape/unescape delimiters agree between printers and tokenizer; operator consumed by match length", floor=6)
 
     methods = [f for f in prog.methods_of("occa::lang::tokenizer_t")]
@@ -392,6 +393,7 @@ def run(ctx):
     R.ob("C12-R9", skipped, bc.q, "the opener is stepped over before the scan", bc.site(adv[0]) if adv else "%s:%d" % (bc.relfile, bc.d["line"]),
          "the scan starts behind `/*`" if skipped else "the scan starts on the opener's own `*`: `/*/` is taken for a complete comment and the rest of it becomes live tokens")
     literal_boundary(prog, R)
+    suffix_loop(ctx.program(UNITS + ["src/types/primitive.cpp"], thorough_all=False), R)
     # operators are split by longest match: the lookup structure is the trie (shared clause with C28)
     from rules import c28
     from vlib.refile import refile
@@ -462,6 +464,53 @@ def scanner_shape(ctx, R):
                  "and the first diagnostic printed on it throws std::length_error (abort)" % bt)
     if n6 < 6:
         raise AnalysisBroken("tokenizer: only %d line-start updates inside loops found" % n6)
+
+
+def suffix_loop(prog, R):
+    """R11: primitive::load reads the suffixes of a number in a loop; leaving that loop after consuming part of the suffix splits the literal"""
+    ld = [f for f in prog.fns("occa::primitive::load") if f.d["params"] and "char" in f.d.get("sig", "") and "&" in f.d.get("sig", "").split(",")[0]]
+    if len(ld) != 1:
+        raise AnalysisBroken("primitive::load(const char *&, bool) not found")
+    f = ld[0]
+    cur = f.d["params"][0]["d"]
+    loops = [n for n in f.walk() if n["k"] == "WhileStmt" and not n.get("mac") and any(x["k"] == "CharacterLiteral" and x.get("v") in (76, "L", "'L'") or (x["k"] == "CharacterLiteral" and literal(x) in ("L", 76)) for x in walk(n))]
+    if len(loops) != 1:
+        raise AnalysisBroken("primitive::load: suffix loop not found (%d candidates)" % len(loops))
+    lp = loops[0]
+    def writes_cursor(n):
+        for x in walk(n):
+            t = write_target(x)
+            if t is not None and strip(t)["k"] == "DeclRefExpr" and strip(t).get("d") == cur:
+                return x
+        return None
+    n_br = 0
+    for br in [x for x in walk(kids(lp)[1]) if x["k"] == "BreakStmt"]:
+        anc = f.ancestors(br)
+        inner_loop = False
+        consumed = None
+        child = br
+        for a in anc:
+            if a["i"] == lp["i"]:
+                break
+            if a["k"] in ("WhileStmt", "ForStmt", "DoStmt") and not a.get("mac"):
+                inner_loop = True
+                break
+            if a["k"] == "CompoundStmt":
+                for sib in kids(a):
+                    if sib["i"] == child["i"]:
+                        break
+                    # an unconditional statement of this block that moves the cursor
+                    if sib["k"] not in ("IfStmt", "WhileStmt", "ForStmt", "DoStmt", "SwitchStmt") and writes_cursor(sib) is not None:
+                        consumed = writes_cursor(sib)
+            child = a
+        if inner_loop:
+            continue
+        n_br += 1
+        R.ob("C12-R11", consumed is None, f.q, "suffix-loop:break only before anything of this round was consumed", f.site(br),
+             "the loop is left with the cursor where the round found it" if consumed is None else
+             "the loop is left right after the cursor was moved (%s): what follows in the same literal is never looked at - `1e5L` / `2.5e-3l` stop at the exponent, and the tokenizer then splits the literal" % noid(render(consumed, False)))
+    if n_br < 2:
+        raise AnalysisBroken("primitive::load: only %d loop exits analysed" % n_br)
 
 
 def literal_boundary(prog, R):
